@@ -257,6 +257,18 @@ def tree_inputs(tier, rng):
             t.append(t[pid[i]] + sign[i] * rng.choice([1.05, 1.5, 2.5]) * max(rad[i], rad[pid[i]]))
         xyz = np.array([[1.0 + 0.6 * v, 2.0 + 0.8 * v, 3.0] for v in t])
         yield dict(pid=pid, xyz=xyz, r=rad, collinear=True)
+    # collinear trees laid exactly along a coordinate axis, in both directions, with radii that grow and shrink along the
+    # line: moved by exact quarter turns they stay axis-parallel (every pose of a voxel-grid reconstruction is of this kind)
+    for axis in range(3):
+        for sgn in (1.0, -1.0):
+            for rad in ([1.0, 0.5, 1.5, 0.75], [0.5, 1.0, 0.5], [1.5, 1.0]):
+                n = len(rad)
+                t = [0.0]
+                for i in range(1, n):
+                    t.append(t[-1] + sgn * 1.5 * max(rad[i], rad[i - 1]))
+                xyz = np.array([[1.0, 2.0, 3.0]] * n)
+                xyz[:, axis] += np.array(t)
+                yield dict(pid=[-1] + list(range(n - 1)), xyz=xyz, r=rad, collinear=True, axis_aligned=True)
 
 
 def _random_binaryish(rng, n):
@@ -282,7 +294,12 @@ def run(ctx):
                     type=[1] + [3 if (i % 2) else 2 for i in range(1, n)], collinear=inp["collinear"],
                     probe=list(range(n)) if n <= 12 else sorted(rng.sample(range(n), 8)))
         for k in range(n_motion):
-            spec = dict(base, relation="motion", steps=random_motion(rng, with_rotate=(k % 2 == 1)))
+            steps = random_motion(rng, with_rotate=(k % 2 == 1))
+            if inp.get("axis_aligned"):  # exact quarter / half turns keep the tree parallel to an axis
+                q = math.pi / 2
+                steps = [[["rotz", q, "origin"]], [["rotx", -q, "root"], ["roty", 2 * q, "origin"]], [["roty", q, "root"], ["translate", [3.0, -2.0, 1.0]]],
+                         [["rotz", -q, "root"], ["rotx", q, "origin"]], [["roty", -q, "origin"]]][k % 5]
+            spec = dict(base, relation="motion", steps=steps)
             res = check_relation(rep, spec, notes)
             skipped += res == "skipped"
             ctx.case("motion", dict(pid=pid, steps=spec["steps"], xyz0=base["xyz"][0] if n > 5 else None, n=n), nontrivial=n >= 2 and res != "skipped")
